@@ -616,11 +616,34 @@ type vC05Gate struct {
 	overlaps atomic.Int64
 	timeouts atomic.Int64
 	yield    bool
+	// delete gate: a datastore Delete (the discard of a bad record, issued inside the key's
+	// stripe lock after the re-read) is held until a Put on the same datastore key has taken
+	// effect or delHold of real time has passed. With the stripe lock in place no such Put can
+	// happen. Like the Get gate it only shapes the schedule; no verdict depends on the wait.
+	j           *vjds.Journal
+	delHold     time.Duration
+	delOverlaps atomic.Int64
 }
 
 func (g *vC05Gate) hook(e *vjds.Entry) error {
 	if g.yield {
 		runtime.Gosched()
+	}
+	if e.Op == vjds.OpDelete && g.delHold > 0 && g.j != nil {
+		from := g.j.Len()
+		for dl := time.Now().Add(g.delHold); time.Now().Before(dl); time.Sleep(20 * time.Microsecond) {
+			hit := false
+			for _, x := range g.j.EntriesFrom(from) {
+				if x.Op == vjds.OpPut && x.Key == e.Key && x.Err == "" {
+					hit = true
+				}
+			}
+			if hit {
+				g.delOverlaps.Add(1)
+				break
+			}
+		}
+		return nil
 	}
 	if e.Op != vjds.OpGet || g.hold <= 0 || e.Role == "reader" {
 		return nil
@@ -679,8 +702,10 @@ func vC05CheckJournal(c *vh.Case, j *vjds.Journal, val *vC05Validator, stale map
 			if !c.Check(ok && proto.Unmarshal(e.Value, rec) == nil, "stored-valid", "undecodable write under %s", e.Key) {
 				continue
 			}
-			c.Check(string(rec.GetKey()) == key, "stored-key-match", "record with embedded key %q written under the datastore key of %q", rec.GetKey(), key)
-			c.Check(val.validAt(key, rec.GetValue(), 0) == nil, "stored-valid", "record %q written for key %q although the validator rejects it", rec.GetValue(), key)
+			if e.Role != "seed" { // pre-filed junk is not a write of the store
+				c.Check(string(rec.GetKey()) == key, "stored-key-match", "record with embedded key %q written under the datastore key of %q", rec.GetKey(), key)
+				c.Check(val.validAt(key, rec.GetValue(), 0) == nil, "stored-valid", "record %q written for key %q although the validator rejects it", rec.GetValue(), key)
+			}
 			d, _ := vC05Dec(rec.GetValue())
 			if held[e.Key] {
 				p := final[e.Key]
@@ -737,6 +762,7 @@ func vC05OverlapBody(c *vh.Case, expiry bool) {
 	per := 6 + r.Intn(5)
 	g := &vC05Gate{waiting: map[string]chan struct{}{}, hold: 300 * time.Microsecond, yield: r.Intn(2) == 0}
 	j := vjds.NewJournal()
+	g.j, g.delHold = j, time.Millisecond
 	store := vjds.NewNamed(j, "values")
 	val := &vC05Validator{tieLast: r.Intn(3) == 0}
 	maxAge := []time.Duration{0, time.Hour}[r.Intn(2)]
@@ -762,6 +788,15 @@ func vC05OverlapBody(c *vh.Case, expiry bool) {
 			}
 			v := vC05Val{ID: vC05StaleID + i, Rank: r.Intn(16), Key: k}
 			b, _ := proto.Marshal(vC05Rec(k, v, old))
+			if (c.Idx+i)%4 == 0 {
+				// mis-filed instead of expired: a fresh, low-ranked record that is valid for another
+				// key (of another lock stripe) sits under k's datastore key. Only a Get of k may
+				// discard it (the sweeper leaves it alone); until then it takes part in Select.
+				other := k + "#m"
+				v = vC05Val{ID: vC05StaleID + i, Rank: v.Rank % 4, Key: other}
+				b, _ = proto.Marshal(vC05Rec(other, v, time.Now().UTC().Format(time.RFC3339Nano)))
+				c.Obs("prefiled_misfiled", 1)
+			}
 			dk := valueDsKey(k)
 			store.Put(vjds.WithRole(ctx, "seed"), dk, b)
 			stale[dk.String()], staleRank[k] = string(b), v.Rank
@@ -845,7 +880,7 @@ func vC05OverlapBody(c *vh.Case, expiry bool) {
 	close(start)
 	wg.Wait()
 	vs.Close() // stops the sweeper
-	g.hold = 0 // the final reads are not gated
+	g.hold, g.delHold = 0, 0 // the final reads are not gated
 	seqHash, downgrades := vC05CheckJournal(c, j, val, stale)
 	written := map[int]bool{}
 	for _, e := range j.Entries() {
@@ -942,6 +977,7 @@ func vC05OverlapBody(c *vh.Case, expiry bool) {
 	}
 	c.Obs("gate_timeouts", int(g.timeouts.Load()))
 	c.Obs("gate_overlaps", int(g.overlaps.Load()))
+	c.Obs("delete_gate_overlaps", int(g.delOverlaps.Load()))
 	c.Obs("downgrades", downgrades)
 	c.Obs("refusals", refusals)
 	c.Obs("reads_nothing", nilReads)
